@@ -890,6 +890,16 @@ V("c03-new-simplify-down-rewrite-unreviewed", "C03", "R03.8", "dask_array/_broad
 ])
 V("c03-twin-slice-fusion-grid-check-via-equality", "C03", "-", "dask_array/slicing/_basic.py",
   "                    if _same_grid(fused_slice.chunks, self.chunks):\n                        return fused_slice", "                    if fused_slice.chunks == self.chunks:\n                        return fused_slice", twin=True)
+V("c03-weighted-reduction-weights-not-aligned", "C03", "R03.9", "dask_array/reductions/_reduction.py",
+  "        if wgt.chunks != x.chunks:\n            wgt = wgt.rechunk(x.chunks)\n", "", expect="reduction")
+V("c07-reduction-lowering-unifies-again", "C07", "R07.6", "dask_array/reductions/_reduction.py",
+  "            # x and the weights are on one grid by construction (see ``reduction``)\n            align_arrays=False,\n", "", expect="Reduction._lower")
+V("c03-weights-aligned-only-when-coarser", "C03", "R03.9", "dask_array/reductions/_reduction.py",
+  "        if wgt.chunks != x.chunks:\n            wgt = wgt.rechunk(x.chunks)\n", "        if wgt.chunks != x.chunks and wgt.npartitions < x.npartitions:\n            wgt = wgt.rechunk(x.chunks)\n", expect="reduction")
+V("c03-twin-weights-aligned-unconditionally", "C03", "-", "dask_array/reductions/_reduction.py",
+  "        if wgt.chunks != x.chunks:\n            wgt = wgt.rechunk(x.chunks)\n", "        wgt = wgt.rechunk(x.chunks)\n", twin=True)
+V("c02-coarse-pushdown-accepts-empty-selection-again", "C02", "R02.4", "dask_array/_blockwise.py",
+  "                if (first is None or last < first) and isinstance(adjust_chunks.get(out_ind[axis]), (tuple, list)):\n                    # An empty selection leaves one empty input block, which an\n                    # explicit per-block ``adjust_chunks`` tuple cannot describe.\n                    return None\n", "", expect="_accept_slice_coarse")
 V("c02-detector-uses-forward-permutation", "C02", "R02.6", "dask_array/_blockwise.py",
   "        inv = expr._inverse_axes\n        dep_mapping = tuple(parent_mapping[inv[i]] for i in range(len(inv)))", "        dep_mapping = tuple(parent_mapping[ax] for ax in expr.axes)", expect="_symbolic_mapping")
 V("c02-twin-detector-local-rename", "C02", "-", "dask_array/_blockwise.py",
